@@ -250,7 +250,8 @@ func (im c10Image) typ() types.Image {
 
 const c10ImgSuffix = "(:[a-zA-Z0-9_.{}-]*)?(@sha256:[a-zA-Z0-9_.{}-]*)?$"
 
-func c10ImgPattern(t string) string { return "^" + t + c10ImgSuffix }
+// the pattern image.IsImageMatched compiles (the entry name is quoted since /repo d3b6ede)
+func c10ImgPattern(t string) string { return "^" + regexp.QuoteMeta(t) + c10ImgSuffix }
 
 type c10Id struct {
 	Group     string `json:"group,omitempty"`
